@@ -105,7 +105,9 @@ func (p *resultsPrinter) PrintResults(matchingNodes *list.List) error {
 			return errorWriting
 		}
 
-		commentsStartWithSepExp := regexp.MustCompile(`^\$yqDocSeparator\$`)
+		// the leading content replays the document's own separator when it has one, after any
+		// comment lines that came before it in the file
+		commentsStartWithSepExp := regexp.MustCompile(`^(\s*(#[^\n]*)?\n)*\$yqDocSeparator\$`)
 		commentStartsWithSeparator := commentsStartWithSepExp.MatchString(mappedDoc.LeadingContent)
 
 		if (p.previousDocIndex != mappedDoc.GetDocument() || p.previousFileIndex != mappedDoc.GetFileIndex()) && !commentStartsWithSeparator {
